@@ -138,6 +138,15 @@ impl Ttl {
                     Some(TcpMatchQuality::Low.as_score())
                 }
             }
+            // `nnn-` marks senders with random TTLs: nnn is the maximum initial TTL, so any
+            // observed TTL up to nnn is an instance and a larger one cannot come from that sender
+            (Ttl::Distance(a, _), Ttl::Bad(b)) | (Ttl::Value(a), Ttl::Bad(b)) => {
+                if a <= b {
+                    Some(TcpMatchQuality::High.as_score())
+                } else {
+                    None
+                }
+            }
             (Ttl::Guess(a), Ttl::Value(b)) => {
                 if a == b {
                     Some(TcpMatchQuality::High.as_score())
